@@ -119,6 +119,7 @@ class CaseResult:
     observations: int = 0
     skipped: str = ''
     nontrivial: bool = True
+    events: list = field(default_factory=list)     # observations for a trace specification to judge (direction B)
 
 
 def exc_sig(e: BaseException) -> str:
